@@ -2,3 +2,5 @@
 pub use vcommon;
 pub mod states;
 pub mod registries;
+pub mod mirror;
+pub mod defrag;
